@@ -53,7 +53,7 @@ real_names = re.findall(r'"([^"]*)"', m.group(1)) if m else []
 names_file = os.path.join(work, "names.txt")
 open(names_file, "w").write("\n".join(real_names) + "\n")
 res = os.path.join(work, "out.json")
-n, mods, runs = (40000, 20, 40) if ck.thorough() else (3000, 3, 16)
+n, mods, runs = (40000, 20, 40) if ck.thorough() else (3000, 3, 12)
 rc, out = sh([exe, "-work", work, "-out", res, "-seed", str(ck.seed), "-n", str(n), "-mods", str(mods), "-runs", str(runs),
               "-staticcheck", sc, "-names", names_file], timeout=3000, env=dict(GOENV, VERIF_REPO=REPO))
 if rc != 0:
@@ -122,6 +122,11 @@ def ccase(c):
                                                  "(Some %s)" % S(c["ChecksFlag"]) if c["HasChecksFlag"] else "None",
                                                  "(Some %s)" % S(c["FailFlag"]) if c["HasFailFlag"] else "None",
                                                  coq_bool(c["ShowIgnored"]), pkgs, c["Exit"], coq_list([rend(r) for r in (c["Out"] or [])]))
+    if t == "cone":
+        KIND = {"named": "PNamed", "faileddep": "PFailedDep", "cleandep": "PCleanDep"}
+        pkgs = coq_list(["(%s, %s, %s)" % (KIND[p["Kind"]], chain(p["Chain"], p["HasChain"]), coq_list([prob(q) for q in (p["Problems"] or [])])) for p in c["Pkgs"]])
+        return "CCone %s %s None None %s %s %d %s" % (FMT[c["Format"]], slist(c["All"]), coq_bool(c["ShowIgnored"]), pkgs, c["Exit"],
+                                                      coq_list([rend(r) for r in (c["Out"] or [])]))
     raise ValueError(t)
 
 
@@ -206,6 +211,11 @@ def brief(c):
             " -show-ignored" if c["ShowIgnored"] else "", c["Format"], c["Note"],
             {p["Dir"]: (p["Chain"][-1] if p["HasChain"][-1] else None) for p in c["Pkgs"]}, c["Exit"], len(c["Out"] or []),
             sorted({(r["File"], r["Cat"]) for r in (c["Out"] or [])})[:12])
+    if t == "cone":
+        return "staticcheck -f %s %s (patterns name the importer only; import cone: %s) -> exit %d, printed %s" % (
+            c["Format"], c["Note"].split()[-1],
+            [(p["Kind"], p["Dir"], [(q["File"], q["Line"], q["Cat"]) for q in (p["Problems"] or [])]) for p in c["Pkgs"]], c["Exit"],
+            [(r["File"], r["Line"], r["Col"], r["Cat"]) for r in (c["Out"] or [])])
     return t
 
 
@@ -220,7 +230,7 @@ WHAT = {"DMap": "the allow map is not 'the last matching element of the selectio
         "DAllowed": "the effective check list selects other checks than the innermost list with 'inherit' spliced from the next outer level",
         "DExit": "exit status differs from: 1 iff not SARIF and a shown problem is in the -fail set or a compile/config/directive error",
         "DOutput": "printed problems differ from the problems of the selected checks that are not hidden"}
-PRIO = {"parse": 0, "merge": 1, "filter": 2, "exit": 3, "load": 4, "cli": 5}
+PRIO = {"parse": 0, "merge": 1, "filter": 2, "exit": 3, "load": 4, "cone": 4, "cli": 5}
 Vs.sort(key=lambda x: (PRIO.get(cases[x[0]]["T"], 9), len(json.dumps(cases[x[0]])), x[0]))
 seen_kinds = {}
 for i, diffs in Vs:
@@ -263,12 +273,13 @@ for c in cases:
     kinds[c["T"]] = kinds.get(c["T"], 0) + 1
     if nontrivial(c):
         nt.add(key_of(c))
-cli = [c for c in cases if c["T"] == "cli"]
+cli = [c for c in cases if c["T"] in ("cli", "cone")]
 ck.trusted += ["harness hc11 (/verif/harness/cmd/hc11) and hook lintcmd/verif_export_c11c12.go: conversion to lintcmd's own types, stdout of printDiagnostics captured through a pipe; parsers for the text, stylish, JSON and SARIF output",
                "TOML decoding of staticcheck.conf (BurntSushi/toml) and the directory walk of parseConfigs are not modelled; they are exercised by config.Load and by the staticcheck binary on generated trees"]
 ck.assume += ["check names, selection elements and categories are ASCII (strings.ToLower / unicode.IsNumber are modelled on ASCII); c11_ascii_names discharges it for every registered check name",
               "every analyzer runs regardless of the selection and its problems do not depend on the selection (modelled by success being a filter; explored on %d staticcheck runs against a -checks '*' baseline)" % len(cli),
               "with -show-ignored ignored problems are printed and counted like any other (modelled as the code does; the property statement is claimed for the default)",
+              "a package that fails to load reports its compile/config errors once, attached to the first broken package of an import chain (go/packages); lint_package keeps them for failed packages in the import cone of the named packages (12 partial-pattern runs per check run)",
               "the problems handed to printDiagnostics are pairwise different in (position, category up to case, message): merging of duplicates is C12's subject"]
 ck.finish({
     "evaluations": len(cases),
